@@ -54,11 +54,19 @@ class ProbeNodeVec(ProbeNode):
     OUT_SHAPE = (2,)
 
 
+CALL_LOG = []  # host-side trace written by the oracle callbacks when the real code is run concretely (replays)
+
+
 def oracle_callback(tag, shape=(), dtype=jnp.float32):
-    """A jax.pure_callback the interpreter maps to fresh symbols; concretely returns zeros."""
+    """A jax.pure_callback the interpreter maps to symbols; concretely it logs the call and returns a deterministic
+    function of its arguments (so that replays are reproducible)."""
 
     def _cb(*args):
-        return onp.zeros(shape, dtype=dtype)
+        CALL_LOG.append((f"oracle_{tag}", [onp.asarray(a) for a in args]))
+        h = 0.0
+        for i, a in enumerate(args):
+            h += float(onp.sum(onp.asarray(a, dtype=onp.float64))) * (0.5 + 0.25 * i)
+        return (onp.arange(1, int(onp.prod(shape)) + 1, dtype=onp.float64).reshape(shape) * 0.125 + h).astype(dtype)
 
     _cb.__name__ = f"oracle_{tag}"
     return _cb
@@ -83,7 +91,10 @@ class OracleNode(BaseNode):
             inp = step_state.inputs[name]
             args += [inp.seq, inp.ts_sent, inp.ts_recv, inp.data.y]
         cb = oracle_callback(f"step_{self.name}", (2,), jnp.float32)
-        res = jax.pure_callback(cb, jax.ShapeDtypeStruct((2,), jnp.float32), *args)
+        from jax.experimental import io_callback
+
+        # io_callback: a genuine side effect (XLA neither de-duplicates nor drops it), like a user's host-side counter
+        res = io_callback(cb, jax.ShapeDtypeStruct((2,), jnp.float32), *args)
         return step_state.replace(state=PState(x=res[0])), POutput(y=res[1])
 
 
